@@ -326,6 +326,36 @@ Theorem C02_edit_in_place : forall (file : list Z) off n ps i (rec : list Z),
 Proof. exact edit_in_place. Qed.
 Print Assumptions C02_edit_in_place.
 
+(* ---------------- a header between two files ---------------- *)
+
+(* A header that was read from one file and is handed to a writer (LasData.write after an edit, laspy.open(mode="w", header=..)):
+   the EVLR fields of the new file's header (model of LasWriter.__init__ -> LasHeader.partial_reset, LasWriter.write_evlrs,
+   translated on every run) are what THIS writer was given — none when write_evlrs was not called or got an empty list, k records
+   right behind the points otherwise — for every value the two fields had before *)
+Theorem C02_writer_announces_its_own_evlrs : forall minor had_start had_count end_of_points given r,
+  writer_evlr_fields minor had_start had_count end_of_points given = Some r ->
+  r = match given with
+      | Some k => if 0 <? k then (end_of_points, k) else (0, 0)
+      | None => (0, 0)
+      end.
+Proof. exact writer_announces_its_own_evlrs. Qed.
+Print Assumptions C02_writer_announces_its_own_evlrs.
+
+Theorem C02_writer_evlrs_need_1_4 : forall minor hs hc e k, minor < 4 -> writer_evlr_fields minor hs hc e (Some k) = None.
+Proof. exact writer_evlrs_need_1_4. Qed.
+Print Assumptions C02_writer_evlrs_need_1_4.
+
+Theorem C02_writer_evlrs_accepted : forall minor hs hc e given, 4 <= minor -> exists r, writer_evlr_fields minor hs hc e given = Some r.
+Proof. exact writer_evlrs_accepted. Qed.
+Print Assumptions C02_writer_evlrs_accepted.
+
+(* every method of LasHeader that binds the header's point format or adds / removes extra dimensions of it (read from the source on
+   every run: Gen/GenC02.v point_format_writers) rebuilds the Extra Bytes VLR from the dimensions the point format has afterwards:
+   the record length a header announces and its 192-byte descriptors come from one list *)
+Theorem C02_point_format_writers_sync : point_format_writers_sync = true.
+Proof. exact point_format_writers_all_sync. Qed.
+Print Assumptions C02_point_format_writers_sync.
+
 (* ---------------- a record handed to a header that was not made from it ---------------- *)
 
 (* LasWriter.write_points, LasAppender.append_points, LasData(header, points) and the LasData.points setter refuse a record
@@ -425,6 +455,10 @@ Example C02_nonvacuous :
   /\ append_session [9; 9; 1; 2; 7; 7; 7; 7; 7; 7] 2 1 2 4 0 0 [[[3; 4]]] = [9; 9; 1; 2; 3; 4; 7; 7; 7; 7]
   /\ record_at [9; 9; 1; 2; 3; 4; 5; 6] 2 2 2 = [5; 6]
   /\ edit_record [9; 9; 1; 2; 3; 4; 7] 2 2 1 [8; 8] = [9; 9; 1; 2; 8; 8; 7]
+  (* a 1.4 header read from a file with 2 EVLRs at byte 525, written again: no EVLR given -> none announced; one given -> one, right
+     behind the points that end at 400; a 1.2 writer refuses *)
+  /\ writer_evlr_fields 4 525 2 400 None = Some (0, 0) /\ writer_evlr_fields 4 525 2 400 (Some 1) = Some (400, 1)
+  /\ writer_evlr_fields 4 525 2 400 (Some 0) = Some (0, 0) /\ writer_evlr_fields 2 0 0 400 (Some 1) = None
   (* a header that declares (amplitude: uint16, reflectance: float32): a record with the same list is taken; the same set in the
      other order, an int16 amplitude, a reflectance with a scale are refused; the descriptors are data_type 3 and 9, five
      unsigned bytes are data_type 0 with options 5 *)
